@@ -64,6 +64,7 @@ type FuncSpec struct {
 	Lets      []LetSpec
 	Uses      []UseSpec
 	IsLemma   bool
+	NoReturn  bool
 	NoSafety  bool
 	Terminate bool
 }
@@ -116,7 +117,7 @@ var clauseKeywords = map[string]bool{
 	"func": true, "extern": true, "type": true, "global": true, "axiom": true, "requires": true, "ensures": true,
 	"modifies": true, "decreases": true, "loop": true, "invariant": true, "ghost": true, "assert": true,
 	"calls": true, "pure": true, "trusted": true, "returns_elem": true, "opaque": true, "let": true, "nosafety": true,
-	"package": true, "field": true, "terminates": true, "macro": true, "lemma": true, "use": true, "hint": true,
+	"package": true, "field": true, "terminates": true, "macro": true, "lemma": true, "use": true, "hint": true, "noreturn": true,
 }
 
 // Macro is a textual abbreviation usable in contract expressions: macro NAME(a, b) = body.
@@ -354,6 +355,8 @@ func (cs *Contracts) ParseFile(path string) error {
 				curF.Trusted = true
 			case "nosafety":
 				curF.NoSafety = true
+			case "noreturn":
+				curF.NoReturn = true
 			case "terminates":
 				curF.Terminate = true
 			case "returns_elem":
